@@ -6,10 +6,40 @@ import numpy as np
 from vk.symx.poly import Poly, all_zero, first_nonzero
 
 
+class TimeUp(BaseException):
+    """wall-clock budget of a pooled case exhausted.  BaseException: it passes through the `except Exception` clauses that turn exceptions of the code under test
+    into totality violations - running out of time is not a property of the code.  Raised only at safe points (between obligations / at kernel calls), never from a
+    signal handler (an exception raised asynchronously inside object construction surfaces as SystemError)"""
+
+
+_DEADLINE = [None]
+
+
+def budget_check():
+    import time as _t
+    if _DEADLINE[0] is not None and _t.time() > _DEADLINE[0]:
+        raise TimeUp()
+
+
+def run_with_budget(seconds, fn, case, led, skipped_key):
+    """fn(case, led) under a cooperative wall-clock budget; a case that runs out of time is recorded in led.extra['skipped'] - its obligations are simply not
+    generated (never a violation, never counted as discharged)"""
+    import time as _t
+    _DEADLINE[0] = _t.time() + seconds
+    try:
+        fn(case, led)
+    except TimeUp:
+        led.calls = [c for c in led.calls if c[0] != "crash"]
+        led.extra.setdefault("skipped", []).append(skipped_key)
+    finally:
+        _DEADLINE[0] = None
+
+
 def decide(run, oid, fn, lhs, rhs, case, numeric_replay=None, fields=None):
     """lhs, rhs: Poly / object arrays / numbers.  Records one S obligation; on refutation reports a violation whose
     replay re-runs the same call natively on random numeric values (always possible: a non-zero polynomial is non-zero
     at a random point with probability 1)."""
+    budget_check()
     t0 = time.time()
     try:
         if isinstance(lhs, Poly) or isinstance(rhs, Poly) or np.isscalar(lhs):
